@@ -1348,6 +1348,15 @@ func (r *Resolver) authority(ctx context.Context, req, resp *dns.Msg, parentDS [
 			}
 
 			if r.dnssec && verified {
+				// VerifyRRSIG tolerates authority records owned outside the
+				// signer zone by leaving them out of the validation. answer()
+				// drops them afterwards; a negative response kept them, so an
+				// unsigned foreign SOA, NSEC or any other record appended to a
+				// validly signed denial travelled to the client under AD=1.
+				// The AD bit must never cover unvalidated data (RFC 4035
+				// section 3.2.3).
+				resp.Ns = dnsutil.FilterRRsToZone(resp.Ns, chosenSigner)
+
 				// Require denial-of-existence proof for every
 				// negative response under a signed zone. Without
 				// it, a forged SOA+RRSIG would be enough to set
